@@ -151,6 +151,8 @@ pub struct Scenario {
     pub slow_drop: u8,
     /// scheduling points also *after* every write of the crate (see rt `post_write`)
     pub post_write: bool,
+    /// scheduling points also after every load / failed CAS (see rt `post_load`)
+    pub post_load: bool,
     /// probability (per 65536) of a spurious compare_exchange_weak failure
     pub weak_cas_rate: u32,
     /// probability (per 256) that a task is polled again without having been notified
@@ -159,6 +161,8 @@ pub struct Scenario {
     pub quarantine: bool,
     /// probe-anchored stall: (probe id, fire on n-th hit, length)
     pub trap: Option<(u32, u32, u32)>,
+    /// index (in `threads`) of the only thread the trap applies to; None = any task
+    pub trap_thread: Option<u32>,
     pub tags: Vec<String>,
     /// sequential engine: when present, main runs this call list against the reference
     /// model instead of starting threads
@@ -180,10 +184,12 @@ impl Scenario {
             slow_view: 0,
             slow_drop: 0,
             post_write: false,
+            post_load: false,
             weak_cas_rate: 0,
             spurious_poll: 0,
             quarantine: false,
             trap: None,
+            trap_thread: None,
             tags: Vec::new(),
             seq: None,
         }
@@ -430,6 +436,7 @@ impl Scenario {
             .set("slow_view", J::UInt(self.slow_view as u64))
             .set("slow_drop", J::UInt(self.slow_drop as u64))
             .set("post_write", J::Bool(self.post_write))
+            .set("post_load", J::Bool(self.post_load))
             .set("weak_cas_rate", J::UInt(self.weak_cas_rate as u64))
             .set("spurious_poll", J::UInt(self.spurious_poll as u64))
             .set("quarantine", J::Bool(self.quarantine))
@@ -440,6 +447,7 @@ impl Scenario {
                     Some((p, nth, len)) => J::Arr(vec![J::UInt(p as u64), J::UInt(nth as u64), J::UInt(len as u64)]),
                 },
             )
+            .set("trap_thread", match self.trap_thread { None => J::Null, Some(t) => J::UInt(t as u64) })
             .set("tags", J::Arr(self.tags.iter().map(|t| J::str(t)).collect()))
             .set(
                 "seq",
@@ -498,6 +506,7 @@ impl Scenario {
             slow_view: j.u("slow_view") as u8,
             slow_drop: j.u("slow_drop") as u8,
             post_write: j.get("post_write").and_then(|x| x.as_bool()).unwrap_or(false),
+            post_load: j.get("post_load").and_then(|x| x.as_bool()).unwrap_or(false),
             weak_cas_rate: j.u("weak_cas_rate") as u32,
             spurious_poll: j.u("spurious_poll") as u8,
             quarantine: j.get("quarantine").and_then(|x| x.as_bool()).unwrap_or(false),
@@ -509,6 +518,7 @@ impl Scenario {
                 )),
                 _ => None,
             },
+            trap_thread: j.get("trap_thread").and_then(|x| x.as_u64()).map(|x| x as u32),
             tags: j
                 .get("tags")
                 .and_then(|x| x.as_arr())
